@@ -125,8 +125,12 @@ def build_entries(repo: Repo) -> List[Tuple[FunctionInfo, tuple]]:
             E.append((m, (VEC, NUM)))
         elif mname == "__setitem__":
             E.append((m, (VEC, NUM, NUM)))
-        else:
+        elif mname.startswith("_") and not mname.startswith("__"):
+            pass  # a private helper with parameters is analysed with the argument types of its callers only
+        elif np_ == 1:
             E.append((m, (VEC, VEC)))
+        else:
+            E.append((m, (VEC, VEC) + tuple(NUM for _ in range(np_ - 1))))
     # --- calc functions
     inter = repo.fn("intersection", "calc.intersection")
     for a in g7 + [NONE]:
